@@ -248,6 +248,28 @@ def run(chk):
                 return mach.fit(dask.bag.from_sequence(stats, npartitions=3) if bag else stats)
             ivm = guarded("IVectorMachine.fit[%s]" % ("bag" if bag else "list"), {"stats": stats, "ubm": ubm}, fit_iv,
                           lambda o: [np.asarray(o.T), np.asarray(o.sigma)])
+        # an i-vector floor ABOVE some of the UBM's variances (features in small units / a raised variance_floor): the caller's UBM is left alone
+        for upd in (False, True):
+            def fit_iv_floor():
+                np.random.seed(3)
+                return iv.IVectorMachine(ubm=ubm, dim_t=2, max_iterations=1, update_sigma=upd,
+                                         variance_floor=float(np.median(np.asarray(ubm.variances)))).fit(stats)
+            guarded("IVectorMachine.fit[variance_floor above some UBM variances, update_sigma=%s]" % upd, {"stats": stats, "ubm": ubm}, fit_iv_floor,
+                    lambda o: [np.asarray(o.T), np.asarray(o.sigma)], twice=False)
+        # a MAP machine whose prior carries per-feature variance floors (an array): machine and prior share no storage, and editing the prior's
+        # floors in place afterwards does not reach the adapted machine
+        thr_arr = np.full(np.asarray(m.variances).shape[1], 1e-6) * (1.0 + np.arange(np.asarray(m.variances).shape[1]))
+        prior_t = make_gmm(np.asarray(m.weights), np.asarray(m.means), np.asarray(m.variances), thr=thr_arr.copy())
+        mapm = GMMMachine(n_gaussians=len(np.asarray(m.weights)), trainer="map", ubm=prior_t, max_fitting_steps=1, convergence_threshold=None, update_variances=True)
+        chk.count(1, key=("MAP machine vs prior: array-valued floors",))
+        if shares(arrays_of(mapm), [prior_t]):
+            chk.fail("a MAP machine constructed from a prior with array-valued variance floors shares storage with the prior", {"entry": "GMMMachine(trainer='map', ubm=prior)"})
+        else:
+            mapm.fit(Xg)
+            sc_before = np.array(mapm.log_likelihood(Xg))
+            prior_t.variance_thresholds[...] = 50.0
+            if not np.array_equal(np.asarray(mapm.log_likelihood(Xg)), sc_before) or np.any(np.asarray(mapm.variance_thresholds) == 50.0):
+                chk.fail("editing the prior's variance floors in place after MAP adaptation changes the adapted machine (floors / scores)", {"entry": "prior.variance_thresholds[...] = 50"})
         for upd in (False, True):
             np.random.seed(3)
             ubm_iv = copy.deepcopy(ubm)
